@@ -245,7 +245,7 @@ bool comp_init(zckCtx *zck) {
         }
     }
 
-    if(zck->temp_fd || zck->no_write) {
+    if(zck->mode == ZCK_MODE_WRITE && (zck->temp_fd || zck->no_write)) {
         if(zck->comp.dict) {
             char *dst = NULL;
             size_t dst_size = 0;
